@@ -18,12 +18,12 @@ From PBK Require Import Base.
 Definition char := N.
 
 (* ---- characters ---------------------------------------------------------- *)
-Definition ch_tab := 9%N.   Definition ch_lf := 10%N.  Definition ch_vt := 11%N.
-Definition ch_ff := 12%N.   Definition ch_cr := 13%N.  Definition ch_sp := 32%N.
-Definition ch_plus := 43%N. Definition ch_minus := 45%N. Definition ch_dot := 46%N.
-Definition ch_slash := 47%N. Definition ch_0 := 48%N.  Definition ch_colon := 58%N.
-Definition ch_gt := 62%N.   Definition ch_at := 64%N.  Definition ch_lb := 91%N.
-Definition ch_rb := 93%N.   Definition ch_us := 95%N.
+Definition ch_tab : char := 9%N.   Definition ch_lf : char := 10%N.  Definition ch_vt : char := 11%N.
+Definition ch_ff : char := 12%N.   Definition ch_cr : char := 13%N.  Definition ch_sp : char := 32%N.
+Definition ch_plus : char := 43%N. Definition ch_minus : char := 45%N. Definition ch_dot : char := 46%N.
+Definition ch_slash : char := 47%N. Definition ch_0 : char := 48%N.  Definition ch_colon : char := 58%N.
+Definition ch_gt : char := 62%N.   Definition ch_at : char := 64%N.  Definition ch_lb : char := 91%N.
+Definition ch_rb : char := 93%N.   Definition ch_us : char := 95%N.
 
 (* string.whitespace = ' \t\n\r\x0b\x0c'; for ASCII also C's isspace / Py_ISSPACE *)
 Definition is_ws (c : char) : bool :=
